@@ -30,6 +30,7 @@ import (
 	"github.com/kklash/bitcoinlib/taproot"
 	"github.com/kklash/bitcoinlib/tx"
 	"github.com/kklash/bitcoinlib/varint"
+	"github.com/kklash/bitcoinlib/wif"
 	"github.com/kklash/ekliptic"
 	"golang.org/x/crypto/scrypt"
 )
@@ -1008,4 +1009,73 @@ func init() {
 			}
 		}
 	})
+}
+
+func init() {
+	// C10: keys and chain codes with leading (and trailing) zero bytes through WIF and extended-key
+	// serialisation and back
+	regExtra("C10", func(r *Runner) {
+		for i := 0; i < r.N(8, 60); i++ {
+			k := r.bytesN(32)
+			cc := r.bytesN(32)
+			z := 1 + i%4
+			for j := 0; j < z; j++ {
+				k[j], cc[j] = 0, 0
+			}
+			if i%3 == 0 {
+				k[31], cc[31] = 0, 0
+			}
+			if new(big.Int).SetBytes(k).Sign() == 0 {
+				k[31] = 1
+			}
+			for c := 0; c < 2; c++ {
+				r.Do("wif.enc", []string{hx(k), "128", strconv.Itoa(c)}, "wif-enc-leading-zero", true, "")
+				if s, err := wifEncodeFor(k, 128, c == 1); err == nil {
+					r.Do("wif.dec", []string{sx(s)}, "wif-dec-leading-zero", true, "")
+				}
+			}
+			for _, priv := range []bool{true, false} {
+				key := k
+				if !priv {
+					key = scalarWithLeadingZeroX(int64(1 + 300*i)) // public key whose x starts with a zero byte
+					key = ecc.GetPublicKeyCompressed(key)
+				}
+				ver := uint32(0x0488ADE4)
+				if !priv {
+					ver = 0x0488B21E
+				}
+				args := []string{strconv.Itoa(b2i(priv)), hx(key), hx(cc), "00000000", "0", "0", strconv.FormatUint(uint64(ver), 10)}
+				r.Do("xkey.ser", args, "xkey-ser-leading-zero", true, "")
+				var s string
+				if priv {
+					s = bip32.SerializePrivate(key, cc, []byte{0, 0, 0, 0}, 0, 0, ver)
+				} else {
+					s = bip32.SerializePublic(key, cc, []byte{0, 0, 0, 0}, 0, 0, ver)
+				}
+				r.Do("xkey.deser", []string{sx(s)}, "xkey-deser-leading-zero", true, "")
+			}
+		}
+	})
+	// C13: tweaks whose OUTPUT key has an x coordinate with a leading zero byte
+	regExtra("C13", func(r *Runner) {
+		found := 0
+		k := r.scalar(0)
+		pub := ecc.GetPublicKeySchnorr(k)
+		for ctr := 0; ctr < 5000 && found < r.N(2, 8); ctr++ {
+			h := sha256.Sum256([]byte(fmt.Sprintf("commitment-%d", ctr)))
+			q, _, err := taproot.TweakPublicKey(pub, h[:])
+			if err == nil && q[0] == 0 {
+				r.Do("tap.tweakpub", []string{hx(pub), hx(h[:])}, "tweakpub/output-leading-zero", true, "tweaked key x with a leading zero byte")
+				r.Do("tap.tweakpriv", []string{hx(k), hx(h[:])}, "tweakpriv/output-leading-zero", true, "")
+				found++
+			}
+		}
+	})
+}
+
+func wifEncodeFor(k []byte, v byte, compressed bool) (string, error) {
+	if compressed {
+		return wif.Encode(k, v)
+	}
+	return wif.EncodeUncompressed(k, v)
 }
